@@ -149,6 +149,7 @@ func macroBf(exp Exporter) {
 		ctx.checkFormats(formats)
 		if ctx.notExportFormat(formats) {
 			bfinf.ignore = true
+			ctx.elided = true
 			return
 		}
 	}
@@ -424,7 +425,9 @@ func macroEf(exp Exporter) {
 		ctx.Error("no corresponding `.Bf'")
 		return
 	}
-	if !ctx.bfInfo.ignore {
+	if ctx.bfInfo.ignore {
+		ctx.elided = true
+	} else {
 		var text string
 		if tag := ctx.bfInfo.filterTag; tag != "" {
 			filter, ok := ctx.Filters[tag]
@@ -628,6 +631,7 @@ func macroFt(exp Exporter) {
 		formats := strings.Split(ctx.InlinesToText(format), ",")
 		ctx.checkFormats(formats)
 		if ctx.notExportFormat(formats) {
+			ctx.elided = true
 			return
 		}
 	}
@@ -666,6 +670,7 @@ func macroIncludeFile(exp Exporter) {
 			ctx.checkFormats(formats)
 		}
 		if ctx.notExportFormat(formats) {
+			ctx.elided = true
 			return
 		}
 	}
